@@ -21,7 +21,7 @@ def build(R, need_harness=True):
         R.proof_problems.append("extraction/OCaml build of the Tables model failed")
         R.log(log[-1500:])
         return None
-    h = os.path.join(R.work, "h.test")
+    h = os.path.join(R.work, "tables-h.test")
     if need_harness:
         ok, log = vlib.go_test_build("tables", h)
         if not ok:
@@ -36,7 +36,7 @@ def corpus_files(pid):
 
 
 def run_harness(R, h, kind, n, seed, ms, ops_files=(), tag=""):
-    trace = os.path.join(R.work, "trace" + tag)
+    trace = os.path.join(R.work, "tables-trace" + tag)
     env = vlib.goenv()
     env.update(VERIF_SEED=str(seed), VERIF_N=str(n), VERIF_OUT=trace, VERIF_KIND=kind,
                VERIF_MS=",".join(str(m) for m in ms), VERIF_OPS=":".join(ops_files))
@@ -114,7 +114,7 @@ def shrink(R, exe, h, kind, ops_lines, still_fails, budget=60):
     counter = [0]
     def fails(sub):
         counter[0] += 1
-        p = os.path.join(R.work, "shrink-%d.ops" % (counter[0] % 4))
+        p = os.path.join(R.work, "tables-shrink-%d.ops" % (counter[0] % 4))
         open(p, "w").write("\n".join(head + sub) + "\n")
         tr, out = run_harness(R, h, kind, 0, 1, [1], [p], tag="-shrink")
         if tr is None:
@@ -160,7 +160,7 @@ def replay(R, path, kind):
     if b is None:
         print("build failed"); return 2
     exe, h = b
-    p = os.path.join(R.work, "replay.ops")
+    p = os.path.join(R.work, "tables-replay.ops")
     open(p, "w").write("\n".join(ops) + "\n")
     tr, out = run_harness(R, h, kind, 0, 1, [1], [p], tag="-replay")
     if tr is None:
